@@ -62,6 +62,17 @@ CHECKS = {
    note='Axioms: none. XML part payloads are symbolic here (their content is C01/C02/C10); zipfile\'s byte layout is trusted.',
    tech='Coq proof over a model of the package writer (induction on the object tree) + correspondence',
    ref='5/C03'),
+ 'C06': dict(
+   text='Proof (Coq, finite domain decided by computation and lifted): over the four tables of odf/grammar.py and the relations read '
+        'from the ODF 1.2 RELAX NG schema (both regenerated on every run, one numbering of names), the model of addElement / addText / '
+        'addCDATA / setAttribute-by-keyword / the constructor accepts exactly what the schema permits - for all ordered pairs of the 598 '
+        'schema elements, all elements x {text}, all elements x EVERY keyword string, all elements x EVERY set of given attributes - '
+        'except on the recorded deviations (known findings, listed item by item); refusals are IllegalChild / IllegalText / '
+        'AttributeError; check_grammar=False lets everything through; every schema element has a factory. Tied by an exhaustive sweep '
+        'of the real API (1.06 million calls, both tiers) compared row by row with the extracted model and with the schema relations.',
+   note='Axioms: none. The RELAX NG interpreter (tools/rnglib.py) is shared by translator and oracle. Value conversion is C15.',
+   tech='Coq proof by computation over regenerated tables (schema and code), lifted with forallb_forall + exhaustive API sweep',
+   ref='5/C06'),
  'C07': dict(
    text='Proof (Coq): every raising DOM/Element operation of the heap model returns the heap it was given (tree, link fields, owner '
         'marks, element index, style dictionary) - for any consistent heap and any operation; a raising constructor call (any failing '
